@@ -29,6 +29,7 @@ type lpCond struct {
 	health   sdkmath.LegacyDec
 	lpPrice  sdkmath.LegacyDec
 	safety   sdkmath.LegacyDec
+	unhealthy bool // health <= safety factor (the only condition under which a lock-up may be overridden, C12)
 	allowed  bool // closable: health <= safety or stop-loss reached
 	clear    bool // clearly NOT closable even with a 2 % margin (other closes in the same step move prices)
 	borrowed sdkmath.Int
@@ -54,12 +55,15 @@ type MonC10 struct {
 	perpPre  map[int][]perpCond
 	sweepPre []lpCond
 	sweepFor int64
+	sweepConds []lpCond         // the sweep's conditions of the current block (kept for the C12 lock-up monitor)
+	lpAllCur   []lpCond
+	lpAll      map[int][]lpCond // per transaction: every position named in a close-positions message, the signer's own included
 	openLP   map[int]map[uint64]string
 	openPerp map[int]map[uint64]string
 }
 
 func newMonC10(s *Sim) *MonC10 {
-	return &MonC10{sim: s, lpPre: map[int][]lpCond{}, perpPre: map[int][]perpCond{}, openLP: map[int]map[uint64]string{}, openPerp: map[int]map[uint64]string{}}
+	return &MonC10{sim: s, lpAll: map[int][]lpCond{}, lpPre: map[int][]lpCond{}, perpPre: map[int][]perpCond{}, openLP: map[int]map[uint64]string{}, openPerp: map[int]map[uint64]string{}}
 }
 
 func (m *MonC10) Name() string { return "C10" }
@@ -109,6 +113,7 @@ func (m *MonC10) evalLP(ctx sdk.Context, owner string, id uint64) lpCond {
 		return c
 	}
 	slSet := !c.pos.StopLossPrice.IsNil() && c.pos.StopLossPrice.IsPositive()
+	c.unhealthy = c.health.LTE(c.safety)
 	c.allowed = c.health.LTE(c.safety) || (!c.pos.StopLossPrice.IsNil() && c.lpPrice.LTE(c.pos.StopLossPrice))
 	c.clear = c.health.GT(c.safety.Mul(margin)) && (!slSet || c.lpPrice.GT(c.pos.StopLossPrice.Mul(margin)))
 	return c
@@ -220,7 +225,9 @@ func (m *MonC10) PreTx(ctx sdk.Context, t *ExecTx) {
 	for _, msg := range flattenMsgs(t.Spec.Msgs) {
 		switch x := msg.(type) {
 		case *leveragelptypes.MsgClosePositions:
+			m.lpAllCur = nil
 			m.lpPre[t.Index] = append(m.lpPre[t.Index], m.replayLevLP(ctx, x, signer)...)
+			m.lpAll[t.Index] = append(m.lpAll[t.Index], m.lpAllCur...)
 		case *perpetualtypes.MsgClosePositions:
 			m.perpPre[t.Index] = append(m.perpPre[t.Index], m.replayPerp(ctx, x, signer)...)
 		}
@@ -257,6 +264,9 @@ func (m *MonC10) replayLevLP(ctx sdk.Context, x *leveragelptypes.MsgClosePositio
 		c := m.evalLP(cc, r.Address, r.Id)
 		if c.ok && r.Address != signer {
 			note(c)
+		}
+		if c.ok && !stopLoss {
+			m.lpAllCur = append(m.lpAllCur, c)
 		}
 		// mirror of msg_server_close_positions.go
 		position, err := k.GetPosition(cc, r.GetAccountAddress(), r.Id)
@@ -476,9 +486,16 @@ func (m *MonC10) PostTx(ctx sdk.Context, t *ExecTx) {
 				if err != nil {
 					continue
 				}
+				// health as a liquidation request in this very block would see it: with the borrow
+				// interest accrued up to now (a no-op when the handler has just accrued it)
+				mtp := mtp
+				func() {
+					defer func() { _ = recover() }()
+					app.PerpetualKeeper.UpdateMTPBorrowInterestUnpaidLiability(cc, &mtp)
+				}()
 				h, err := app.PerpetualKeeper.GetMTPHealth(cc, mtp, ammPool, DenomUSDC)
 				safety := app.PerpetualKeeper.GetParams(cc).SafetyFactor
-				if err == nil && h.LTE(safety) && x.Leverage.IsPositive() {
+				if err == nil && h.LTE(safety) {
 					s.Violate("C10", "perp_open_unhealthy", step, "open by %s succeeded but position %d (%s, custody %s%s, liabilities %s%s, collateral %s%s) has health %s <= safety factor %s in the post-state (health recorded by the handler: %s)", shortAddr(x.Creator), mtp.Id, mtp.Position, mtp.Custody, mtp.CustodyAsset, mtp.Liabilities, mtp.LiabilitiesAsset, mtp.Collateral, mtp.CollateralAsset, h, safety, mtp.MtpHealth)
 				}
 				s.Stats.Probe("open_health_checked")
@@ -498,6 +515,7 @@ func (m *MonC10) PostTx(ctx sdk.Context, t *ExecTx) {
 // against the state the sweep leaves behind.
 func (m *MonC10) BeforeBlock(s *Sim, ctx sdk.Context) {
 	m.sweepPre = m.sweepPre[:0]
+	m.sweepConds = nil
 	m.sweepFor = ctx.BlockHeight()
 	app := s.N0.App
 	mctx, _ := ctx.CacheContext()
@@ -576,6 +594,7 @@ func (m *MonC10) BeforeBlock(s *Sim, ctx sdk.Context) {
 		m.sweepPre = m.sweepPre[:0]
 		return
 	}
+	m.sweepConds = append([]lpCond(nil), m.sweepPre...)
 	for _, p := range k.GetAllPositions(mctx) {
 		if inPage[fmt.Sprintf("%s/%d", p.Address, p.Id)] {
 			continue
@@ -618,6 +637,7 @@ func (m *MonC10) checkSweep(ctx sdk.Context, step string) {
 func (m *MonC10) AfterBlock(s *Sim, eb *ExecBlock) {
 	m.checkSweep(s.Ctx(), "BeginBlock(sweep)")
 	m.lpPre = map[int][]lpCond{}
+	m.lpAll = map[int][]lpCond{}
 	m.perpPre = map[int][]perpCond{}
 	m.openLP = map[int]map[uint64]string{}
 	m.openPerp = map[int]map[uint64]string{}
